@@ -67,6 +67,7 @@ class Node:
                 raise TypeError('can only assign an iterable (Loop does not count)')
             value = tuple(self.parse_child(child) for child in value)
             indices = range(*idx.indices(len(self.__children)))
+            removed = self.__children[idx]
             self.__children.__setitem__(idx, value)
 
             if len(value) != len(indices):
@@ -76,11 +77,23 @@ class Node:
             elif len(value) > 0:
                 for index in indices:
                     self.__children[index].__parent_index = index
+            self._detach_removed(removed, value)
 
         else:
             value = self.parse_child(value)
             value.__parent_index = idx + len(self.__children) if idx < 0 else idx
+            removed = self.__children[idx]
             self.__children.__setitem__(idx, value)
+            self._detach_removed((removed,), (value,))
+
+    def _detach_removed(self: _NodeType, removed: Iterable[_NodeType], kept: Iterable[_NodeType]):
+        """A child that was replaced forgets this node: otherwise editing it later would still patch the cached
+        values of its former parent chain."""
+        kept_ids = {id(child) for child in kept}
+        for child in removed:
+            if id(child) not in kept_ids and child.__parent() is self:
+                child.__parent = make_empty_weak_reference()
+                child.__parent_index = None
 
     def __getitem__(self: _NodeType, *args, **kwargs) ->Union[_NodeType, List[_NodeType]]:
         return self.__children.__getitem__(*args, **kwargs)
